@@ -42,7 +42,7 @@ class FastPolicy(Container[Sequence[str]]):
         return len(list(self.__get_policy()))
 
     def __contains__(self, item: object) -> bool:
-        if not isinstance(item, (list, tuple)) or len(self._cache_key_order) >= len(item):
+        if not isinstance(item, (list, tuple)) or any(x >= len(item) for x in self._cache_key_order):
             return False
         keys = [item[x] for x in self._cache_key_order]
         exists = in_cache(self._cache, keys)
